@@ -39,6 +39,9 @@ CLAIMED["C18"] = ("TLA+ Container (key->node map over objects incl. a duplicate-
 CLAIMED["C15"] = ("paired trace validation: seeded whole-API programs executed side by side on each plain/sync pair, TLC (TracePaired) requires equal results and equal projected states on every event besides the normal match against Container/Adjacency; plus the exhaustive TLC-emitted case sets of MC_Adjacency, MC_Search and MC_Container replayed on both members of each pair and compared case by case",
   "The specification has a single model per pair (only Directed differs); 50 programs x 200 calls per pair (thorough 1000 x 500) over mutations, container calls, all traversals with options, observers, comparisons, scc, serde and DOT; all enumerated cases of the other checks on both members.", "§4 C15")
 
+CLAIMED["C20"] = ("TLA+ MC_Cursor (positional cursors over the live lists of Adjacency, Search step machine, scripts of operations run after the k-th yield) model-checked (LastYieldExists, Bounded, MirrorKept); every (graph, loop, script) run replayed inside the real loop bodies / closures on all four flavours; disagreements and seeded random runs judged step by step by TLC (TraceCursor); self-deadlocks reported through the lock-point hook",
+  "All graphs with 3 nodes/<=2 edges (thorough <=3) x loops {iter_out,iter_in,iter,bfs,dfs,pfs,pre,post} x directions x cycle mode x every single-operation script at every yield index (thorough: also 2-operation scripts); random 6-node runs with up to 6 script operations.", "§4 C20")
+
 NOT_YET = {}
 props = [json.loads(l) for l in open(os.path.join(V, "properties.jsonl"))]
 checks = []
